@@ -32,11 +32,19 @@
 //!                    runs there, the treap is moved back (the threads are joined at once: the draws stay in line order)
 //!     Fn:v:p[:ms]  In:i:k:v:p[:ms]   the same as F / I through the building blocks: `Box::new(TreapNode::new(item))` put into
 //!                    the `root` field resp. TreapNode::split_at + TreapNode::new + TreapNode::merge + TreapNode::merge on `t.root`
+//!     E:<what>:<where>:<m>:<pos>:<cb>:<tid>:<k>:<act>:<r>:<q>   (C16) a fault in user code inside a library call, on a throw-away
+//!                    treap: an item whose update / push / size (or the split_by predicate) panics or re-enters the library, on a
+//!                    worker thread that dies / under catch_unwind / while another thread creates nodes; then one probe draw.
+//!                    Token `E:<fired>:<panicked>:<probe priority>`; see fault.rs.  A line with an event runs in a CHILD process
+//!                    of this executor with a watchdog (C03_WATCHDOG_MS, default 3000): a line that does not come back (a
+//!                    callback re-entering the library while the library holds its generator lock) is the observation `H`, a
+//!                    child that crashes is `P`; a lock poisoned by the event cannot leak into the following lines.
 //! `x <family> <n> [a] [b] [c]`   implementation-level search for C16 (native priorities), see fam.rs
 use rlib_treap::*;
 use vh::p;
 
 mod fam;
+mod fault;
 
 #[derive(Clone, Copy)]
 enum Md {
@@ -377,6 +385,7 @@ fn history<I: HItem>(toks: &[&str]) -> String {
                 }
                 "z".into()
             }
+            "E" => fault::token(&fault::run(&fault::parse(&f))),
             "Ft" => {
                 let it = made::<I>(p(f[1]), &parse_mods(f.get(3)));
                 let pr = f[2].to_string();
@@ -601,8 +610,52 @@ fn insert_item_with_priority<I: HItem>(t: &mut Treap<I>, pos: usize, item: I, pr
     *t = Treap::merge(Treap::merge(l, node_of(item, pr)), r);
 }
 
+/// one line in a child process of this executor; `H` if it does not finish in time, `P` if the child dies
+fn in_child(toks: &[&str]) -> String {
+    use std::io::{Read, Write};
+    let limit_ms: u128 = std::env::var("C03_WATCHDOG_MS").ok().and_then(|s| s.parse().ok()).unwrap_or(3000);
+    let mut ch = std::process::Command::new(std::env::current_exe().unwrap())
+        .env("C03_CHILD", "1")
+        .stdin(std::process::Stdio::piped())
+        .stdout(std::process::Stdio::piped())
+        .spawn()
+        .unwrap();
+    {
+        let mut stdin = ch.stdin.take().unwrap();
+        let _ = writeln!(stdin, "{}", toks.join(" "));
+    }
+    let mut pipe = ch.stdout.take().unwrap();
+    let reader = std::thread::spawn(move || {
+        let mut s = String::new();
+        let _ = pipe.read_to_string(&mut s);
+        s
+    });
+    let t0 = std::time::Instant::now();
+    let status = loop {
+        match ch.try_wait().unwrap() {
+            Some(st) => break Some(st),
+            None if t0.elapsed().as_millis() >= limit_ms => {
+                let _ = ch.kill();
+                let _ = ch.wait();
+                break None;
+            }
+            None => std::thread::sleep(std::time::Duration::from_millis(1)),
+        }
+    };
+    let out = reader.join().unwrap_or_default();
+    match status {
+        None => "H".to_string(),
+        Some(st) if st.success() && !out.trim().is_empty() => out.trim().to_string(),
+        Some(_) => "P".to_string(),
+    }
+}
+
 fn main() {
+    let is_child = std::env::var_os("C03_CHILD").is_some();
     vh::serve(|t| {
+        if !is_child && t[0] == "h" && t.iter().any(|s| s.starts_with("E:")) {
+            return in_child(t);
+        }
         let owned: Vec<String> = t.iter().map(|s| s.to_string()).collect();
         // every line starts from the seed of the process-wide priority generator (hook, cargo feature
         // `verif`) and runs on a fresh thread whose stack is large enough for the degenerate
